@@ -82,7 +82,12 @@ def main(run):
         n = rng.randint(1, nmax) if c % 8 else rng.randint(nmax + 1, 3 * nmax)  # every 8th case is large
         level = rng.choice([0, 1, 1, 2, 3])
         fc0 = gen.rand_rational_array(rng, (n, n, 3, 3))
-        kind = rng.choice(["random", "random", "invariant"])
+        kind = rng.choice(["random", "random", "invariant", "driftfree-asymmetric"])
+        if kind == "driftfree-asymmetric" and n >= 2:
+            # both sum rules hold exactly-ish but index-permutation symmetry is violated: an input on which
+            # a "converged, nothing to subtract" shortcut must not skip the permutation averaging
+            fc0 = fc0 - fc0.mean(axis=0, keepdims=True)
+            fc0 = fc0 - fc0.mean(axis=1, keepdims=True)
         if kind == "invariant":
             tmp = fc0.copy()
             F.symmetrize_force_constants(tmp, level=2)
@@ -98,7 +103,8 @@ def main(run):
             meta.append(("full-loop-C", dict(n=n, level=level, kind=kind), fc0, fc_c, (n, n, 3, 3)))
         lines.append("pyfullsym %d %d %s" % (level, n, _flat(fc0)))
         meta.append(("full-Py", dict(n=n, level=level, kind=kind), fc0, fc_py, (n, n, 3, 3)))
-        run.case(("full", n, level, fc0.tobytes()), nontrivial=(kind == "random" and n > 1))
+        run.case(("full", n, level, fc0.tobytes()), nontrivial=(kind != "invariant" and n > 1))
+        run.count("full kind=%s" % kind)
         run.count("full n=%d" % n)
         run.count("level=%d" % level)
         # oracle on the implementation: projection laws
@@ -139,6 +145,13 @@ def main(run):
         npa, ns = len(p2s), perms.shape[1]
         level = rng.choice([0, 1, 1, 2])
         fcc0 = gen.rand_rational_array(rng, (npa, ns, 3, 3))
+        if rng.random() < 0.3:
+            # drift-free but not permutation-symmetric periodic array (see the full-layout kind above)
+            full_tmp = F.compact_fc_to_full_fc(ph.primitive, fcc0)
+            full_tmp = full_tmp - full_tmp.mean(axis=0, keepdims=True)
+            full_tmp = full_tmp - full_tmp.mean(axis=1, keepdims=True)
+            fcc0 = F.full_fc_to_compact_fc(ph.primitive, full_tmp)
+            run.count("compact kind=driftfree-asymmetric")
         tl = _tables_line(p2s, s2pp, nsym, perms)
         self_inv = any((perms[t][perms[t]] == np.arange(ns)).all() and not (perms[t] == np.arange(ns)).all() for t in range(len(perms)))
         # implementation
